@@ -444,6 +444,15 @@ def g7(F, rep):
             "%s:%s" % (e.file, e.line), "write_chunk_block(%s, ..); BlockChunk values constructed in expand_zlib_chunks: %s" % ([d[:120] for d in ds], rebuilt))
 
 
+def _is_drop_flag(b, op):
+    """A compiler-made bool that is only ever assigned constants (drop flag of a conditionally moved value)."""
+    p = op_place(op)
+    if p is None or p["p"] or b.local_name(p["l"]):
+        return False
+    ds = b.defs(p["l"])
+    return bool(ds) and all(d[2] == "assign" and d[3]["k"] == "use" and op_const(d[3]["op"]) is not None for d in ds)
+
+
 _IDAT_DECISIONS = [
     (r"^Lt\(len\(var\(png_idat_stream\)\), K12\)$", "input shorter than one chunk frame"),
     (r"^ne\(index\(var\(png_idat_stream\), Range\{K4, K8\}\), const:.*\)$", "first chunk is not IDAT"),
@@ -466,7 +475,7 @@ def g8(F, rep):
     n = 0
     for sb in sorted(b.normal_blocks()):
         st = b.term(sb)
-        if st["k"] != "switch" or st.get("exp"):
+        if st["k"] != "switch" or st.get("exp") or _is_drop_flag(b, st["d"]):
             continue
         p = op_place(st["d"])
         dd = b.single_def(p["l"]) if p is not None and not p["p"] else None
@@ -481,6 +490,74 @@ def g8(F, rep):
     rep.floor("G8", "idat-decisions", n, 6)
 
 
+_ZIP_DECISIONS = [
+    (r"^(Ne|Eq)\((var\(signature\)|var\(zip_local_file_header\)\.local_file_header_signature), K\d+\)$", "local file header signature"),
+    (r"^(Ne|Eq)\(var\(zip_local_file_header\)\.compression_method, K8\)$", "method 8 = deflate"),
+    (r"^(Gt|Ge)\(var\(deflate_start_position\), len\(var\(contents\)\)\)$", "name / extra field run past the input (D-fix guard)"),
+    (r"^(Le|Lt)\(var\(deflate_start_position\), len\(var\(contents\)\)\)$", "name / extra field run past the input (D-fix guard)"),
+]
+
+
+def g9(F, rep):
+    """parse_zip_stream accepts every local file header with the signature and method 8 whose payload the deflate parser
+    accepts — whatever the name, extra field, flags, sizes or version fields hold (names are only UTF-8 when flag bit 11 is
+    set, sizes are 0 for streamed entries ...).  Its data-dependent decisions are exactly the enumerated ones.  ⚠ closed world."""
+    b = F.body(SD + "parse_zip_stream")
+    extra = []
+    n = 0
+    for sb in sorted(b.normal_blocks()):
+        st = b.term(sb)
+        if st["k"] != "switch" or _is_drop_flag(b, st["d"]):
+            continue
+        p = op_place(st["d"])
+        dd = b.single_def(p["l"]) if p is not None and not p["p"] else None
+        if dd and dd[2] == "assign" and dd[3]["k"] == "discr":
+            # `?` on a read / seek, `if let Ok(res) = decoder(..)`: outcomes of I/O on the cursor and of the decoder are the
+            # permitted rejections; a match on the outcome of anything else (a validation helper) is a further condition
+            calls = _discr_sources(b, dd)
+            bad = [c for c in calls if not re.search(r"(Try>?::branch|create_and_load|read_exact|Seek::seek|stream_position|decompress_deflate_stream|from_residual)$", c)]
+            if bad:
+                extra.append("outcome of %s at %s" % (bad[0], b.where(sb)))
+            continue
+        if st.get("exp"):
+            continue
+        d = flow.describe(b, st["d"], names=True)
+        n += 1
+        if not any(re.match(pat, d) for pat, _ in _ZIP_DECISIONS):
+            extra.append("%s at %s" % (d[:120], b.where(sb)))
+    rep.add("G9", "zip-header-decisions-enumerated", not extra, "%s:%s" % (b.file, b.line),
+            "%d decisions, all among the %d enumerated ones" % (n, len(_ZIP_DECISIONS)) if not extra else "decisions outside the enumerated set: %s" % extra[:3])
+    rep.floor("G9", "zip-decisions", n, 2)
+
+
+def _discr_sources(b, dd):
+    """Callee names whose result the discriminant read `dd` inspects (through moves / Try::branch)."""
+    out = []
+    pl = dd[3].get("place") or dd[3].get("p")
+    if pl is None:
+        return ["?"]
+    seen, work = set(), [pl["l"]]
+    while work:
+        l = work.pop()
+        if l in seen:
+            continue
+        seen.add(l)
+        for d in b.defs(l):
+            if d[2] == "call":
+                n = strip_generics(callee_def(d[3]))
+                out.append(n)
+                if re.search(r"Try>?::branch$", n):
+                    for a in d[3]["args"]:
+                        q = op_place(a)
+                        if q is not None:
+                            work.append(q["l"])
+            elif d[2] == "assign" and d[3]["k"] in ("use", "ref"):
+                q = op_place(d[3]["op"]) if d[3]["k"] == "use" else d[3]["place"]
+                if q is not None:
+                    work.append(q["l"])
+    return out or ["?"]
+
+
 def run(ctx, rep):
     F = ctx.lib
     rep.explanation = ("The recogniser is compared with the wrapper specifications (spec/wrappers.json typed in from RFC 1950/1952, APPNOTE 4.3.7, PNG): "
@@ -493,4 +570,5 @@ def run(ctx, rep):
     g4(F, rep)
     g7(F, rep)
     g8(F, rep)
+    g9(F, rep)
     scan.a4_g5_for(ctx, rep, ("G5",))
